@@ -172,12 +172,12 @@ func VerifH_C04_RealUnquote() {
 		// the tag the server announced for the resource
 		return ConditionalMatch(internal.ETag(etag).String())
 	}
-	// the announced tag with up to two arbitrary bytes in front of and behind
-	// it (weak-validator prefixes, list separators, blanks, ...): not a
+	// the announced tag with two arbitrary bytes in front of it and / or one
+	// (thorough: up to two) behind it (weak-validator prefixes, list separators, blanks, ...): not a
 	// quoted string as soon as it does not begin or does not end with a quote
 	decorated := func(tag string) ConditionalMatch {
-		pre := vrt.StrN(tag+"-prefix", vrt.Choose(tag+"-prefix-len", 3))
-		suf := vrt.StrN(tag+"-suffix", vrt.Choose(tag+"-suffix-len", 3))
+		pre := vrt.StrN(tag+"-prefix", 2*vrt.Choose(tag+"-prefix-2", 2))
+		suf := vrt.StrN(tag+"-suffix", vrt.Choose(tag+"-suffix-1", 1+vrt.Param("decosuffix", 1)))
 		vrt.Assume((len(pre) > 0 && pre[0] != '"') || (len(suf) > 0 && suf[len(suf)-1] != '"'))
 		return ConditionalMatch(pre + internal.ETag(etag).String() + suf)
 	}
